@@ -19,6 +19,10 @@ threads may interleave with — for ALL sets of threads and ALL schedules:
   and every execution has exactly `totalSteps` steps; `no_deadlock_ordered_locks`: the same progress
   for nested locks acquired in rank order; `slots_disjoint_writes`: goroutines that write only
   their own slot (fetch.go's fork/join) leave the sequential result;
+* `rwlock_writer_exclusive`, `rwlock_reads_see_whole_values`: for a `sync.RWMutex` (writers exclusive,
+  readers may overlap) every value read is the value after a prefix of complete write sections and
+  the final value is the writes in lock-acquisition order — this is what licenses a READ site that
+  holds only the read lock, and nothing licenses a write there;
 * `once_single_init`: any number of concurrent `once.Do` calls run exactly one initialiser, once;
 * `excl_create_distinct_names`: `k` concurrent `newTempFile` loops return pairwise distinct names,
   none of which existed before, existing files keep their contents, and a loop gives up only when
@@ -275,6 +279,43 @@ theorem excl_create_distinct_names (limit : Nat) (tag : Nat → Nat) (d0 : FS.Di
   have hinv := FS.inv_exec (FS.inv_start limit tag d0 k) hrun
   exact ⟨hinv.distinct, hinv.keep, hinv.got, hinv.gaveUp⟩
 
+/-- **sync.RWMutex: a writer excludes everybody.**  In every state reachable by any schedule of any
+program, while one thread holds the write lock every other thread holds nothing (readers may
+overlap with readers only). -/
+theorem rwlock_writer_exclusive {σ : Type} (x0 : σ) (prog : List (List (RW.Op σ))) (sched : List Nat)
+    (s' : RW.State σ) (hrun : RW.exec (RW.start x0 prog) sched = some s')
+    (i j : Nat) (ti tj : RW.TS σ) (hij : i ≠ j) (hi : s'.ts[i]? = some ti) (hj : s'.ts[j]? = some tj)
+    (hw : ti.isWriting = true) : tj.isIdle = true :=
+  (RW.inv_exec (RW.inv_start x0 prog) hrun).excl i j ti tj hij hi hj hw
+
+/-- **sync.RWMutex: reads see whole values, writes serialise.**  Write sections are sequences of
+atomic updates (not atomic as a whole); reads hold only the read lock.  For every program and
+schedule, stopped anywhere: every value a reader has seen is the value after some PREFIX of the
+write sections in lock-acquisition order, each run completely (never a half-applied write); and
+once all threads have finished the variable holds the value of all write sections run one after
+the other in that order. -/
+theorem rwlock_reads_see_whole_values {σ : Type} (x0 : σ) (prog : List (List (RW.Op σ)))
+    (sched : List Nat) (s' : RW.State σ) (hrun : RW.exec (RW.start x0 prog) sched = some s') :
+    (∀ e ∈ s'.obs, ∃ k, k ≤ s'.wlog.length ∧ e.2 = RW.runWrites (s'.wlog.reverse.take k) x0) ∧
+    (s'.terminated = true → s'.val = RW.runWrites s'.wlog.reverse x0) := by
+  have hinv := RW.inv_exec (RW.inv_start x0 prog) hrun
+  refine ⟨hinv.reads, fun hterm => ?_⟩
+  have := hinv.value
+  rw [RW.pend_terminated hterm] at this
+  simpa [RW.applyAll] using this
+
+/-- two writers adding 1 twice (non-atomically) and two readers -/
+def rwProg : List (List (RW.Op Nat)) :=
+  [[.write [(· + 1), (· + 1)]], [.read], [.write [(· + 1), (· + 1)], .read], [.read]]
+
+-- the readers overlap with each other (1 and 3 hold the read lock together) and see 2, never 1 or 3
+example : (RW.exec (RW.start 0 rwProg) [0, 0, 0, 0, 1, 3, 1, 3, 3, 1, 2, 2, 2, 2, 2, 2, 2]).map
+    (fun s => (s.terminated, s.val, s.obs.map (·.2))) = some (true, 4, [4, 2, 2]) := by decide
+
+-- a reader cannot get in while a write is half done, nor a writer while a reader holds the lock
+example : (RW.exec (RW.start 0 rwProg) [0, 0, 1]).isNone = true ∧
+    (RW.exec (RW.start 0 rwProg) [1, 0]).isNone = true := by decide
+
 /-- a directory in which `profile001` exists with content 7 -/
 def oneFile : FS.Dir := fun n => if n = 1 then some 7 else none
 
@@ -358,7 +399,8 @@ open PV.Gen.LockFacts in
 /-- Every syntactic access site of every guarded variable in the current source is dominated by
 the variable's guard (mutex held / inside or after the `Once`), or the object is still
 thread-local (fresh, under construction, package initialisation), or it is a read in `Close`;
-and every guarded variable is in fact accessed under its guard somewhere. -/
+a site that holds only the READ lock of a `sync.RWMutex` is accepted for reads and rejected for
+writes; and every guarded variable is in fact accessed under its guard somewhere. -/
 theorem all_sites_guarded : allSitesOk guards sites = true ∧ allGuardsUsed guards sites = true := by
   decide
 
@@ -376,9 +418,11 @@ open PV.Gen.LockFacts in
 theorem tempfile_excl : tempExcl tempFile = true := by decide
 
 open PV.Gen.LockFacts in
-/-- Every goroutine pprof starts in these packages is joined by a `WaitGroup` before its results
-are read and writes only its own slot / variables (fetch.go), or is the detached
-`go openBrowser`. -/
+/-- Every goroutine pprof starts in these packages is joined — `wg.Wait()` after `defer wg.Done()`,
+`<-done` after `defer close(done)`, or one channel receive per spawned goroutine — before anything
+it writes (its own variables, its own slot of the slot slice) is used by the spawner or a sibling;
+or it is the detached `go openBrowser`.  (A body run inline on the spawning goroutine is not a
+goroutine and needs no join.) -/
 theorem goroutines_joined : goSites.all goOk = true := by decide
 
 open PV.Gen.LockFacts in
